@@ -53,6 +53,7 @@ type array struct {
 	n     int
 	width int
 	ro    bool
+	emax  *big.Int // maximum of the (possibly refined) element type
 }
 
 type gen struct {
@@ -361,7 +362,7 @@ func (g *gen) element(width int, limit *big.Int, depth int) (string, *big.Int, b
 	ar := cands[g.draw(0, len(cands)-1, "arr")]
 	idx := g.index(ar.n, depth)
 	e := fmt.Sprintf("%s[%s]", ar.name, idx)
-	em := typeMax(ar.width)
+	em := ar.emax
 	if ar.width == width && em.Cmp(limit) <= 0 {
 		return e, em, true
 	}
@@ -374,6 +375,14 @@ func (g *gen) element(width int, limit *big.Int, depth int) (string, *big.Int, b
 
 // index builds an index expression provably below n.
 func (g *gen) index(n int, depth int) string {
+	if depth > 0 && g.chance(20, "idxelem") {
+		// an element of an array whose refined element type already fits
+		for _, ar := range g.arrays {
+			if ar.emax.Cmp(big.NewInt(int64(n-1))) <= 0 {
+				return fmt.Sprintf("%s[%s]", ar.name, g.index(ar.n, 0))
+			}
+		}
+	}
 	w := []int{8, 32, 32, 64}[g.draw(0, 3, "idxw")]
 	e, _ := g.expr(w, big.NewInt(int64(n-1)), depth)
 	return e
@@ -423,7 +432,7 @@ func (g *gen) stmts(n int, budget int) {
 }
 
 func (g *gen) stmt(budget int) {
-	kind := g.draw(0, 19, "stmt")
+	kind := g.draw(0, 20, "stmt")
 	as := g.assignable()
 	switch {
 	case kind <= 5 && len(as) > 0: // plain assignment
@@ -464,7 +473,7 @@ func (g *gen) stmt(budget int) {
 			break
 		}
 		idx := g.index(ar.n, 2)
-		e, _ := g.expr(ar.width, typeMax(ar.width), 2)
+		e, _ := g.expr(ar.width, ar.emax, 2)
 		g.line("%s[%s] = %s", ar.name, idx, e)
 	case kind == 10 && len(as) > 0: // guarded increment
 		v := as[g.draw(0, len(as)-1, "lhs")]
@@ -501,6 +510,22 @@ func (g *gen) stmt(budget int) {
 		g.line("}")
 	case kind == 13 && budget > 0: // counted loop over an array
 		g.countedLoop(budget - 1)
+	case (kind == 16 || kind == 20) && g.impure && len(g.arrays) > 1: // whole-array assignment
+		a1 := g.arrays[g.draw(0, len(g.arrays)-1, "cpdst")]
+		for _, a2 := range g.arrays {
+			if a2.name == a1.name || a2.n != a1.n || a2.width != a1.width {
+				continue
+			}
+			// sound when the source's element range fits the destination's; the other
+			// direction is the known-finding shape K1 (accepted by an unsound checker)
+			if a2.emax.Cmp(a1.emax) > 0 && (g.o.excluded("K1-container-assign-across-refinements") || !g.chance(60, "k1")) {
+				continue
+			}
+			g.line("%s = %s", a1.name, a2.name)
+			break
+		}
+	case kind == 17 && budget > 0 && len(g.arrays) > 0: // loop whose condition indexes with a variable the body changes
+		g.indexedWhile()
 	case kind == 14 && g.impure && len(g.helps) > 0:
 		h := g.helps[g.draw(0, len(g.helps)-1, "help")]
 		e, _ := g.expr(32, typeMax(32), 2)
@@ -586,7 +611,7 @@ func (g *gen) countedLoop(budget int) {
 			}
 			if len(fit) > 0 {
 				ar := fit[g.draw(0, len(fit)-1, "looparr")]
-				e, _ := g.expr(ar.width, typeMax(ar.width), 2)
+				e, _ := g.expr(ar.width, ar.emax, 2)
 				g.line("%s[%s] = %s", ar.name, idx.name, e)
 				continue
 			}
@@ -602,6 +627,50 @@ func (g *gen) countedLoop(budget int) {
 	}
 	g.locals = saved
 	g.line("%s += 1", idx.name)
+	delete(g.loopVars, idx.name)
+	g.depth--
+	g.line("}")
+}
+
+// indexedWhile emits "while arr[x] <> k { x = (x ~mod+ 1) & M }": with the
+// invariant "x <= M" it is provable; without it only a checker that judges the
+// condition under the loop's entry facts accepts it (known-finding shape K3).
+func (g *gen) indexedWhile() {
+	var idx *variable
+	for i := range g.locals {
+		if g.locals[i].width == 32 && !g.loopVars[g.locals[i].name] && strings.HasPrefix(g.locals[i].name, "v") {
+			idx = &g.locals[i]
+			break
+		}
+	}
+	if idx == nil {
+		return
+	}
+	ar := g.arrays[g.draw(0, len(g.arrays)-1, "iwarr")]
+	m := maskFor(big.NewInt(int64(ar.n - 1)))
+	withInv := g.chance(70, "iwinv")
+	if !withInv && g.o.excluded("K3-loop-condition-under-entry-facts") {
+		withInv = true
+	}
+	if !withInv && g.chance(50, "iwbig") {
+		m = new(big.Int).Add(new(big.Int).Lsh(m, 1), big.NewInt(1)) // a mask that does not fit the array
+	}
+	g.line("%s = %s", idx.name, hex(g.constant(minBig(m, big.NewInt(int64(ar.n-1))))))
+	k := g.constant(ar.emax)
+	if withInv {
+		g.line("while %s[%s] <> %s,", ar.name, idx.name, hex(k))
+		g.line("        inv %s <= %s,", idx.name, hex(m))
+		g.line("{")
+	} else {
+		g.line("while %s[%s] <> %s {", ar.name, idx.name, hex(k))
+	}
+	g.depth++
+	g.loopVars[idx.name] = true
+	if g.impure && g.chance(50, "iwstore") && !g.o.excluded("K2-element-store") {
+		e, _ := g.expr(ar.width, ar.emax, 1)
+		g.line("%s[%s & %s] = %s", ar.name, idx.name, hex(maskFor(big.NewInt(int64(ar.n-1)))), e)
+	}
+	g.line("%s = ((%s ~mod+ 1) & %s)", idx.name, idx.name, hex(m))
 	delete(g.loopVars, idx.name)
 	g.depth--
 	g.line("}")
@@ -762,7 +831,7 @@ func Gen(t *rapid.T, pkg string, o *Options) Prog {
 		}
 		name := fmt.Sprintf("T%d", i)
 		fmt.Fprintf(w, "pri const %s : roarray[%d] %s = [%s]\n\n", name, n, typeName(width), strings.Join(vals, ", "))
-		g.tables = append(g.tables, array{name: name, n: n, width: width, ro: true})
+		g.tables = append(g.tables, array{name: name, n: n, width: width, ro: true, emax: typeMax(width)})
 	}
 	// struct
 	fmt.Fprintf(w, "pub struct foo?(\n")
@@ -781,7 +850,7 @@ func Gen(t *rapid.T, pkg string, o *Options) Prog {
 		fmt.Fprintf(w, "    f%d : %s,\n", i, typ)
 		g.fields = append(g.fields, v)
 	}
-	na := g.draw(1, 3, "narrays")
+	na := g.draw(1, 4, "narrays")
 	second := g.chance(40, "secondpart")
 	for i := 0; i < na; i++ {
 		if second && i == na-1 {
@@ -789,8 +858,16 @@ func Gen(t *rapid.T, pkg string, o *Options) Prog {
 		}
 		n := []int{3, 4, 8, 10, 16, 32, 64}[g.draw(0, 6, "an")]
 		width := []int{8, 8, 16, 32}[g.draw(0, 3, "aw")]
-		fmt.Fprintf(w, "    a%d : array[%d] %s,\n", i, n, typeName(width))
-		g.arrays = append(g.arrays, array{name: fmt.Sprintf("this.a%d", i), n: n, width: width})
+		if i > 0 && g.chance(40, "twin") { // same shape as the previous array: whole-array assignments become possible
+			n, width = g.arrays[i-1].n, g.arrays[i-1].width
+		}
+		emax, et := typeMax(width), typeName(width)
+		if g.chance(30, "refelem") && !(second && i == na-1) {
+			emax = big.NewInt(int64([]int{1, 2, 3, 7, 9, 15, 63}[g.draw(0, 6, "refemax")]))
+			et = fmt.Sprintf("%s[..= %s]", et, hex(emax))
+		}
+		fmt.Fprintf(w, "    a%d : array[%d] %s,\n", i, n, et)
+		g.arrays = append(g.arrays, array{name: fmt.Sprintf("this.a%d", i), n: n, width: width, emax: emax})
 	}
 	fmt.Fprintf(w, ")\n\n")
 	// getters: the observable state
